@@ -653,16 +653,36 @@ def batch_event(label: str, path: list, mpath: list) -> dict:
 
 
 def quiet() -> None:
+    """No log output of Pynguin, no dill warnings (a class of a mutant module is pickled by value)."""
+    import warnings  # noqa: PLC0415
+
+    import dill  # noqa: PLC0415
+
     logging.disable(logging.CRITICAL)
+    warnings.filterwarnings("ignore", category=dill.PicklingWarning)
 
 
 def run_scenario(args) -> dict:
-    """One protocol scenario of MC_SubprocessExec (proto) on the real executors, in a worker."""
+    """One protocol scenario of MC_SubprocessExec (proto) on the real executors.  If a terminating,
+    deterministic member times out in either executor (machine load) the scenario is repeated with
+    doubled timeouts; the last attempt is recorded."""
     beh, workdir, per, maxt, idx = args
     quiet()
     wd = Path(workdir) / f"sc{idx}-{os.getpid()}"
-    with Env(SHAPE_MODULE, SHAPE_SUT, wd, per, maxt) as env:
-        tests = [build_shape(p) for p in beh["tests"]]
-        ri, rs, path = run_both(env.inproc, env.sub, tests, "trace", single=False)
-        out = {"pi": [project(r) for r in ri], "ps": [project(r) for r in rs], "path": path}
+    out: dict = {}
+    for attempt in range(3):
+        with Env(SHAPE_MODULE, SHAPE_SUT, wd, per * 2 ** attempt, maxt * 2 ** attempt) as env:
+            tests = [build_shape(p) for p in beh["tests"]]
+            ri, rs, path = run_both(env.inproc, env.sub, tests, "trace", single=False)
+            out = {"pi": [project(r) for r in ri], "ps": [project(r) for r in rs], "path": path,
+                   "attempts": attempt + 1}
+        spurious = False
+        for k, prog in enumerate(beh["tests"]):
+            ops = [s["op"] for s in prog]
+            if "die" in ops or "spin" in ops or "nap" in ops:
+                continue
+            if out["pi"][k]["to"] or out["ps"][k]["to"]:
+                spurious = True
+        if not spurious:
+            break
     return out
